@@ -30,7 +30,7 @@ def check(ctx):
     reqs, metas = [], []
     for it in range(n):
         which = g.choice(["erm", "eloss", "iso", "es", "qcvar", "pwl", "eloss_default"])
-        smp = gen_sample(g, kind=g.weighted([("ties", 3), ("generic", 3), ("const", 2), ("heavy", 1)]))
+        smp = gen_sample(g, kind=g.weighted([("ties", 3), ("generic", 3), ("const", 2), ("heavy", 1), ("mixed", 2)]))
         N, M = smp["N"], smp["M"]
         cols = smp["cols"]
         if which == "iso":
@@ -38,7 +38,7 @@ def check(ctx):
         x = torch.tensor([[float(cols[m][i]) for m in range(M)] for i in range(N)], dtype=dt)
         if M == 1 and g.chance(0.7):
             x = x[:, 0]
-        tgt = g.choice([0.0, 0.0, 0.5])
+        tgt = g.choice([0.0, 0.0, 0.5, 8.0, -16.0])
         shifted = [[v - F(tgt) for v in c] for c in cols]
         if which == "iso" and tgt:
             tgt = 0.0
@@ -139,7 +139,7 @@ def check(ctx):
         if which == "erm":
             mv = [-(float_of_bits(o["ok"])) if "ok" in o else None for o in mo["erm"]]
         elif which == "eloss":
-            mv = dec_flt(mo["eloss_cash"])
+            mv = [float_of_bits(o["ok"]) if "ok" in o else None for o in mo["eloss_cash"]]
         elif which == "es":
             mv = [-float(v) for v in dec_rat(mo["es"])]
         else:
